@@ -339,6 +339,17 @@ impl Pager {
         }
     }
 
+    /// First page id that has never been handed out (everything from here on is free).
+    #[inline]
+    pub(crate) fn next_page_id(&self) -> u64 {
+        self.meta.next_page_id
+    }
+
+    #[inline]
+    pub(crate) fn is_page_allocated(&self, page_id: PageId) -> bool {
+        page_id.as_u64() < BITMAP_BITS && self.bitmap.is_allocated(page_id)
+    }
+
     #[inline]
     pub fn i2e_len(&self) -> u64 {
         self.meta.i2e_len
